@@ -19,7 +19,7 @@ theorem gateP {cls : GClass} {cs : List Nat} {t : Nat} {u : Unit} {s s' : CState
     GI Kn ρ σ0 s0 s' ∧ Fr Kn σ0 s0 s s' (· = t) NoN (· ∈ cs) ∧ PrivD Kn s0 s' t ∧ TgtL s0 s' t ∧
       Appended cls (cs ++ [t]) s s' ∧ t ∉ cs := by
   obtain ⟨gi', ha, g, hgw, hL⟩ := gate_gi h gi hc hnop hcs hp.av0 hp.nav (Or.inl hp.unread) hp.nn
-  have gi'' : GI Kn ρ σ0 s0 s' := gi'.close (by rw [ha.expq]; exact hp.nc)
+  have gi'' : GI Kn ρ σ0 s0 s' := gi'.close (by rw [ha.expq]; exact hp.nc) (fun _ => TgtL.of_gate hgw hL)
   have fr := gate_fr (Kn := Kn) (σ0 := σ0) ha hc hgw hL
   have hnd : (cs ++ [t]).Nodup := by
     have hm : g ∈ s'.qc.gates.toList := by rw [gi''.gates, hL]; simp
@@ -46,7 +46,7 @@ theorem dest_g {dest : Option Nat} {d : Nat} {s2 s3 : CState}
 
 theorem markAncilla_gi {H : Nat → Prop} {w : Nat} {u : Unit} {s s' : CState}
     (h : (markAncilla w).run s = .ok (u, s')) (gi : GIh Kn ρ σ0 s0 H s)
-    (hw : ¬ Avail s w ∧ (w ∈ s.qc.anc → w ∉ s.qc.kept → TgtL s0 s w)) :
+    (hw : ¬ Avail s w ∧ (w ∈ s.qc.anc → w ∉ s.qc.kept → ¬ H w → TgtL s0 s w)) :
     GIh Kn ρ σ0 s0 H s' ∧ Fr Kn σ0 s0 s s' NoN NoN (· = w) ∧ cur σ0 s' = cur σ0 s ∧
       (w ∈ s.qc.anc → w ∉ s.qc.kept → w ∈ s'.qc.marked) ∧ s'.qc.anc = s.qc.anc ∧ s'.expq = s.expq ∧
       s'.qc.free = s.qc.free ∧ s'.qc.numQubits = s.qc.numQubits := by
@@ -206,7 +206,7 @@ theorem exprG_not {x : BExp} (ih : ExprG Kn ρ σ0 s0 x) : ExprG Kn ρ σ0 s0 (.
           rcases frA.anew _ h1' with h'' | h''
           · exact h''
           · exact absurd h'' res.nav
-        obtain ⟨git3, frt3, hc3, hmk3, hanc3, hex3, hf3, hn3⟩ := markAncilla_gi hmk git2 ⟨hnave2, htge⟩
+        obtain ⟨git3, frt3, hc3, hmk3, hanc3, hex3, hf3, hn3⟩ := markAncilla_gi hmk git2 ⟨hnave2, fun h1 h2 _ => htge h1 h2⟩
         have hpt3 : PrivD Kn s0 t3 d := frt3.priv d hpt2 (fun e' => hned e'.symm)
         have frB := frA.trans frt3
         -- values
